@@ -21,13 +21,33 @@
    subset is the subset by the composed index vector; toDataset(view, bs) holds the view's elements in
    view order in batches of at most bs (initializeBatches) (C03_view_of, C03_view_subset,
    C03_view_subset_compose, C03_to_dataset, C03_view_to_dataset_is_composition).
-   NOT proved (tied to the code by the correspondence run only, see DESIGN.md#C03): the element shape
-   (not part of the Coq model), the batch sharing / makeIndependent discipline, behaviour of
-   binarySubProblem on batches that are NOT class-sorted (outside its documented precondition; the model
-   still follows the code there and is compared).                                                      *)
-From Coq Require Import List Arith Permutation Sorted.
+   SHARED BATCHES (C03Heap.v: heap of batch objects + containers = shape and list of batch pointers; executed next to the
+   real LabeledData on every run, every container observed after every operation): for all histories of create, copy,
+   clear, indexedSubset (1 and 3 arguments), splice, append, push_back, element / batch-element writes, makeIndependent,
+   repartition, splitBatch, reorderElements, the regrouping of the CV constructors:
+   (a) every structural operation that does not throw acts on what the readers of ALL containers see exactly as the
+       value-semantics operation of C03Model (C03_shared_structural_step / _histories); pointers always point into the heap;
+       a structural operation fails although its list operation is defined only through SHARK_RUNTIME_CHECK(isIndependent())
+       of splice / repartition / splitBatch on a sharing container (C03_only_the_independence_check_refuses);
+   (b) a write lands in one batch object and changes exactly the containers holding a pointer to it, at every occurrence
+       (C03_write_reaches_exactly_the_holders); isIndependent() <-> no batch twice and none held elsewhere; makeIndependent()
+       changes nothing readable and establishes independence; writes through an independent container have value
+       semantics, writes through others never reach it; independence lasts over every history that neither exports nor
+       refills the container (C03_independence_lasts);
+   (c) the element shape after every operation is the documented function of the shapes before (C03_shape_carried):
+       copy, both indexedSubset overloads and splice hand it to the results, everything else keeps it;
+   fold objects: createCVIndexed on a shared set allocates new batches which only the set and the fold object hold;
+   training(p) / validation(p) are pointer subsets of the fold object's set (C03_fold_object_shares_the_set,
+   C03_fold_parts_are_pointers); a DataView is a pointer copy written through its index triples (model op, compared).
+   NOT proved (tied to the code by the correspondence run only, see DESIGN.md#C03): behaviour of binarySubProblem on batches
+   that are NOT class-sorted (outside its documented precondition; the model still follows the code there and is compared);
+   that Data::operator== is equality of the pointer lists (compared on every line of the sharing stream);
+   zero-size batches (repartition accepts a size 0 but element access then breaks: outside the generated domain).
+   DOCUMENTED DEVIATION: toDataset(view, batchSize) returns a dataset with the default shape (); the model follows the code
+   (shape "()" after the V / W operations); the shape theorems do not cover toDataset.                       *)
+From Coq Require Import List Arith Bool Permutation Sorted.
 From SharkV Require Import ListAux C03Model C03Proofs C03Iter C03Class C12Model C12Proofs
-  C03ClassProofs C03BinaryProofs C03ViewProofs C03LoopProofs.
+  C03ClassProofs C03BinaryProofs C03ViewProofs C03LoopProofs C03Heap C03HeapProofs C03ShareProofs C03GuardProofs.
 Import ListNotations.
 
 Theorem C03_optimal_batch_sizes :
@@ -335,3 +355,167 @@ Proof.
   - exact (proj1 (C03_view_subset _ d v1 _ v2 (proj1 (C03_view_subset _ d _ _ v1 (view_of_wf d) E1)) E2)).
   - split; vm_compute; reflexivity.
 Qed.
+
+(* ================= shared batches: the heap model of C03Heap.v (run next to the real containers on every check) =================
+   state = heap of batch objects + handles (shape, list of batch ids); [contents st r] = what a reader of container r sees;
+   [abs st] = the list (shape, batches) of all containers = the value-semantics state of C03Model;
+   [wf st] = every pointer points into the heap; [holds st y c] = container y has a pointer to batch object c;
+   [indep_prop st r] = no batch object twice in r and none of them held by another container. *)
+
+Theorem C03_heap_wellformed_always :
+  forall A Sh (dflt : A) (shape0 : Sh) n ops, wf (run dflt shape0 ops (init shape0 n)).
+Proof. intros A Sh. exact (@wf_reachable A Sh). Qed.
+Print Assumptions C03_heap_wellformed_always.
+
+Theorem C03_heap_wellformed_step :
+  forall A Sh (dflt : A) (shape0 : Sh) o st st', wf st -> step dflt shape0 o st = Some st' -> wf st'.
+Proof. intros A Sh. exact (@wf_step A Sh). Qed.
+Print Assumptions C03_heap_wellformed_step.
+
+(* (a) every structural operation (everything but an element write) that does not throw acts on what the readers of ALL
+   containers see, shapes included, exactly as the value-semantics operation of C03Model: sharing is invisible *)
+Theorem C03_shared_structural_step :
+  forall A Sh (dflt : A) (shape0 : Sh) o st st',
+    wf st -> step dflt shape0 o st = Some st' -> is_write o = false ->
+    astep dflt shape0 o (abs st) = Some (abs st').
+Proof. intros A Sh. exact (@step_refines A Sh). Qed.
+Print Assumptions C03_shared_structural_step.
+
+(* ... over all histories; operations refused by the independence check leave everything unchanged ([run] skips them,
+   [ok_ops] lists the others) *)
+Theorem C03_shared_structural_histories :
+  forall A Sh (dflt : A) (shape0 : Sh) ops st,
+    wf st -> forallb (fun o => negb (is_write o)) ops = true ->
+    arun dflt shape0 (ok_ops dflt shape0 ops st) (abs st) = Some (abs (run dflt shape0 ops st)).
+Proof. intros A Sh. exact (@run_refines A Sh). Qed.
+Print Assumptions C03_shared_structural_histories.
+
+(* ... and the ONLY way a structural operation fails although the value-semantics operation is defined is the
+   independence check of splice / repartition / splitBatch ([guarded]) on a container that shares a batch *)
+Theorem C03_only_the_independence_check_refuses :
+  forall A Sh (dflt : A) (shape0 : Sh) o (st : state A Sh),
+    is_write o = false -> astep dflt shape0 o (abs st) <> None -> step dflt shape0 o st = None ->
+    exists r, guarded o = Some r /\ valid st r = true /\ independent shape0 st r = false.
+Proof. intros A Sh. exact (@step_fails_only_by_the_independence_check A Sh). Qed.
+Print Assumptions C03_only_the_independence_check_refuses.
+
+(* (b) a write through container r lands in ONE batch object c; afterwards every container reads every occurrence of c
+   with the new contents and everything else as before: exactly the holders of c change *)
+Theorem C03_write_reaches_exactly_the_holders :
+  forall A Sh (shape0 : Sh) (st st' : state A Sh) r b j (v : A),
+    wf st -> write_batch shape0 st r b j v = Some st' ->
+    let c := nth b (h_ids (hnd shape0 st r)) 0 in
+    let old := cell (st_heap st) c in
+    st_handles st' = st_handles st /\
+    holds shape0 st r c /\ j < length old /\
+    (forall y, contents shape0 st' y =
+               map (fun id => if id =? c then upd j v old else cell (st_heap st) id) (h_ids (hnd shape0 st y))) /\
+    (forall y, ~ holds shape0 st y c -> contents shape0 st' y = contents shape0 st y) /\
+    (forall y, holds shape0 st y c -> upd j v old <> old -> contents shape0 st' y <> contents shape0 st y) /\
+    nth_error (nth b (contents shape0 st' r) []) j = Some v.
+Proof. intros A Sh. exact (@write_batch_effect A Sh). Qed.
+Print Assumptions C03_write_reaches_exactly_the_holders.
+
+(* element(k) = v is the write into the batch that holds element k *)
+Theorem C03_element_write_is_a_batch_write :
+  forall A Sh (dflt : A) (shape0 : Sh) (st st' : state A Sh) r k v,
+    wf st -> step dflt shape0 (OWrite r k v) st = Some st' ->
+    exists b j, locate (sizes (contents shape0 st r)) k = Some (b, j) /\ write_batch shape0 st r b j v = Some st' /\
+                k = sum (firstn b (sizes (contents shape0 st r))) + j.
+Proof. intros A Sh. exact (@write_elem_effect A Sh). Qed.
+Print Assumptions C03_element_write_is_a_batch_write.
+
+(* isIndependent() (all use counts are 1) is the statement about pointers *)
+Theorem C03_is_independent_spec :
+  forall A Sh (shape0 : Sh) (st : state A Sh) r,
+    valid st r = true -> (independent shape0 st r = true <-> indep_prop shape0 st r).
+Proof. intros A Sh. exact (@independent_spec A Sh). Qed.
+Print Assumptions C03_is_independent_spec.
+
+(* makeIndependent(): no reader sees a difference (contents, shapes of all containers), the container is independent *)
+Theorem C03_make_independent :
+  forall A Sh (dflt : A) (shape0 : Sh) (st st' : state A Sh) r,
+    wf st -> step dflt shape0 (OMakeIndep r) st = Some st' ->
+    abs st' = abs st /\ indep_prop shape0 st' r /\ independent shape0 st' r = true.
+Proof. intros A Sh. exact (@make_independent_spec A Sh). Qed.
+Print Assumptions C03_make_independent.
+
+(* writes through an independent container have value semantics and change nobody else; writes through others never reach it *)
+Theorem C03_independent_write_is_local :
+  forall A Sh (shape0 : Sh) (st st' : state A Sh) x b j (v : A),
+    wf st -> indep_prop shape0 st x -> write_batch shape0 st x b j v = Some st' ->
+    contents shape0 st' x = upd b (upd j v (nth b (contents shape0 st x) [])) (contents shape0 st x) /\
+    forall y, y <> x -> contents shape0 st' y = contents shape0 st y.
+Proof. intros A Sh. exact (@independent_write_is_local A Sh). Qed.
+Print Assumptions C03_independent_write_is_local.
+
+Theorem C03_write_elsewhere_does_not_reach_independent :
+  forall A Sh (shape0 : Sh) (st st' : state A Sh) x y b j (v : A),
+    wf st -> indep_prop shape0 st x -> y <> x -> write_batch shape0 st y b j v = Some st' ->
+    contents shape0 st' x = contents shape0 st x.
+Proof. intros A Sh. exact (@write_elsewhere_keeps_independent A Sh). Qed.
+Print Assumptions C03_write_elsewhere_does_not_reach_independent.
+
+(* independence lasts: over every history in which x is neither handed to another container ([exports]: copy / subset /
+   append of x) nor refilled with another container's pointers ([imports]) — in particular over all writes, repartitions,
+   reorders, splices, splits, push_backs and makeIndependent calls on ANY container *)
+Theorem C03_independence_lasts :
+  forall A Sh (dflt : A) (shape0 : Sh) ops (st : state A Sh) x,
+    wf st -> valid st x = true -> indep_prop shape0 st x ->
+    forallb (fun o => negb (exports o x) && negb (imports o x)) ops = true ->
+    indep_prop shape0 (run dflt shape0 ops st) x.
+Proof. intros A Sh. exact (@independent_along_history A Sh). Qed.
+Print Assumptions C03_independence_lasts.
+
+(* (c) the element shape after any operation (writes included) is a function of the operation and the shapes before:
+   copy / indexedSubset (1 and 3 arguments) / splice hand the shape of the source to the results, everything else
+   (append, push_back, repartition, splitBatch, reorderElements, the CV regrouping, makeIndependent, writes) keeps it *)
+Theorem C03_shape_carried :
+  forall A Sh (dflt : A) (shape0 : Sh) o (st st' : state A Sh),
+    step dflt shape0 o st = Some st' ->
+    forall y, h_shape (hnd shape0 st' y) = shape_after shape0 o (fun z => h_shape (hnd shape0 st z)) y.
+Proof. intros A Sh. exact (@shape_step A Sh). Qed.
+Print Assumptions C03_shape_carried.
+
+(* createCVIndexed on a set that other containers share: the set gets NEW batches holding what cv_indexed prescribes, the
+   fold object holds the same pointers and shape, nobody else holds them, every other container is untouched *)
+Theorem C03_fold_object_shares_the_set :
+  forall A Sh (dflt : A) (shape0 : Sh) (st st' : state A Sh) r fd idx k m folds,
+    wf st -> r <> fd -> cv_indexed_shared dflt shape0 r fd idx k m st = Some (st', folds) ->
+    exists c, cv_indexed dflt idx k m (contents shape0 st r) = Some c /\
+      contents shape0 st' r = cv_set c /\ folds = cv_folds c /\
+      hnd shape0 st' fd = hnd shape0 st' r /\ h_shape (hnd shape0 st' r) = h_shape (hnd shape0 st r) /\
+      indep_prop shape0 (set_h st' fd (hempty shape0)) r /\
+      forall y, y <> r -> y <> fd -> hnd shape0 st' y = hnd shape0 st y /\ contents shape0 st' y = contents shape0 st y.
+Proof. intros A Sh. exact (@cv_indexed_shared_spec A Sh). Qed.
+Print Assumptions C03_fold_object_shares_the_set.
+
+(* CVFolds::training(p) / validation(p): pointers to the fold object's batches (so a write through a training part is a write
+   into the fold object's set and into every other part that contains the batch, by C03_write_reaches_exactly_the_holders) *)
+Theorem C03_fold_parts_are_pointers :
+  forall A Sh (dflt : A) (shape0 : Sh) (st st' : state A Sh) fd q folds p (training_part : bool),
+    wf st ->
+    step dflt shape0 (if training_part then fold_training_shared shape0 fd q folds p st
+                      else fold_validation_shared fd q folds p) st = Some st' ->
+    let c := mkCV (contents shape0 st fd) folds in
+    Some (contents shape0 st' q) = (if training_part then training c p else validation c p) /\
+    h_shape (hnd shape0 st' q) = h_shape (hnd shape0 st fd) /\
+    (forall id, holds shape0 st' q id -> holds shape0 st fd id) /\
+    st_heap st' = st_heap st.
+Proof. intros A Sh. exact (@fold_parts_shared A Sh). Qed.
+Print Assumptions C03_fold_parts_are_pointers.
+
+(* non-vacuity: copy, write through the copy (visible in the original), makeIndependent, write again (not visible) *)
+Example C03_heap_example :
+  let st := run 0 0 [OCreate 0 2 [10;11;12;13;14] 2; OCopy 0 1; OWrite 1 3 99; OMakeIndep 1; OWrite 1 0 77; OSplice 0 2 1]
+                (init 0 3) in
+  contents 0 st 0 = [[10;11]] /\ contents 0 st 1 = [[77;11];[12;99];[14]] /\ contents 0 st 2 = [[12;99];[14]] /\
+  h_shape (hnd 0 st 2) = 2 /\ independent 0 st 1 = true /\ wf st.
+Proof. cbv zeta. repeat split; try (vm_compute; reflexivity). apply C03_heap_wellformed_always. Qed.
+
+(* the independence check refuses: splice of a container whose batches a copy still holds *)
+Example C03_heap_refusal_example :
+  let st := run 0 0 [OCreate 0 2 [10;11;12] 2; OCopy 0 1] (init 0 3) in
+  step 0 0 (OSplice 0 2 1) st = None /\ independent 0 st 0 = false /\
+  exists st', step 0 0 (OWrite 1 2 55) st = Some st' /\ contents 0 st' 0 = [[10;11];[55]].
+Proof. cbv zeta. split; [vm_compute; reflexivity|]. split; [vm_compute; reflexivity|]. eexists. split; vm_compute; reflexivity. Qed.
